@@ -1,5 +1,7 @@
 """Human-written texts for MANIFEST.json."""
 ENGINES = [
+    {"name": "S5-chainsim", "path": "/verif/sim/chainsim", "serves_properties": ["C06", "C07", "C10"],
+     "kind_free_text": "whole-node deterministic simulation: three real core.Core (prime/region/zone) in one synctest bubble; seeded scheduler owns mining, head selection (forks/reorgs), delivery, storage (SimDisk) and the worker refresh; rapid tape = replay"},
     {"name": "S2-triesim", "path": "/verif/sim/triesim", "serves_properties": ["C18"],
      "kind_free_text": "seeded trie histories with restart / crash-at-write-prefix / proof-corruption faults against a map model with per-root snapshots"},
     {"name": "S1-dbsim", "path": "/verif/sim/dbsim", "serves_properties": ["C17"],
@@ -25,5 +27,24 @@ META = {
                  "after every op the real trie is compared with a map model (canonical root by three construction orders, reads, reopened roots, proofs, StackTrie vs full trie). "
                  "Sampling with shrinking; the order/history independence and crash clauses need specific short histories, which is what a seeded search finds."),
         "note": "Trusted: the map model and snapshot bookkeeping; keccak/rlp. Secure-trie key collisions cannot be steered.",
+    },
+    "C06": {
+        "engine": "S5-chainsim", "design_ref": "DESIGN.md section 4 C06, section 3",
+        "technique": "deterministic whole-node simulation (seeded block/tx/reorg histories), invariant checked after every head change",
+        "text": ("Exploration: hundreds (quick) to tens of thousands (thorough) of seeded chain histories mixing Quai transfers, conversions, Qi spends, Qi/Quai coinbases and lockups, forks and reorgs are executed by the real node; "
+                 "after every head change the UTXO root, set size and state roots in the header are recomputed from what is actually stored. Right level: the clause quantifies over histories and reorgs; failures need specific block contents."),
+        "note": "Trusted: harness scan + multiset recomputation; single node per run; goroutine interleavings inside Finalize are left to the Go runtime (not steered).",
+    },
+    "C07": {
+        "engine": "S5-chainsim", "design_ref": "DESIGN.md section 4 C07",
+        "technique": "deterministic whole-node simulation: worker-built blocks from seeded mempools sealed and fed back to the same node",
+        "text": ("Exploration of the liveness half (assembly == validation): every block the worker builds from seeded mempool contents (including adversarial Qi transactions the pool admitted) and inbound ETX queues must be accepted by the node's own validation and executed as head."),
+        "note": "The rejection half (single-component mutations of valid blocks are refused without trace) is not yet part of this check.",
+    },
+    "C10": {
+        "engine": "S5-chainsim", "design_ref": "DESIGN.md section 4 C10",
+        "technique": "deterministic whole-node simulation with seeded forks/reorgs; refinement check against a fresh node fed only the winning branch",
+        "text": ("Exploration: seeded pairs/trees of branches with spends of pre-fork outputs, outputs created and spent on one branch, coinbase lockups and conversions; after head switches the full chain-state key space is compared with a second node that followed the winning branch directly."),
+        "note": "Trusted: image extraction; reorg depth limited by tape length (<= ~10); trimming depths shrunk by the regime but rarely reached in quick runs.",
     },
 }
